@@ -505,6 +505,161 @@ func c04PebbleSync(p *Pkg) bool {
 	return all
 }
 
+// c04SaveLoop inspects the `for ... range updates` loop of a tan SaveRaftState variant:
+// how is the fsync decision returned by db.write carried to the fsync?
+//   "or":   sync, err := db.write(..); if sync { flag = true }   (or flag = flag || sync)
+//   "last": flag, err = db.write(..)                              (last update decides)
+//   "each": sync, err := db.write(..); if sync { ... db.sync() ... } inside the loop
+func c04SaveLoop(p *Pkg, fname string) (shape string, flagVar string) {
+	fn := p.Func("LogDB", fname)
+	var loop *ast.RangeStmt
+	for _, st := range fn.Body.List {
+		if r, ok := st.(*ast.RangeStmt); ok && c04ExprString(r.X) == "updates" {
+			if loop != nil {
+				panic(fname + ": two loops over updates")
+			}
+			loop = r
+		}
+	}
+	if loop == nil {
+		panic(fname + ": no loop over updates")
+	}
+	writeVar := ""
+	writeDefines := false
+	for _, st := range loop.Body.List {
+		as, ok := st.(*ast.AssignStmt)
+		if !ok || len(as.Rhs) != 1 {
+			continue
+		}
+		if name, c := c04CallName(as.Rhs[0]); c != nil && name == "write" {
+			if writeVar != "" {
+				panic(fname + ": two db.write calls")
+			}
+			writeVar = c04ExprString(as.Lhs[0])
+			writeDefines = as.Tok == token.DEFINE
+		}
+	}
+	if writeVar == "" {
+		panic(fname + ": db.write call not found in the loop")
+	}
+	if !writeDefines {
+		// assigned straight to an outer variable: the last update decides
+		return "last", writeVar
+	}
+	for _, st := range loop.Body.List {
+		switch x := st.(type) {
+		case *ast.IfStmt:
+			if c04ExprString(x.Cond) != writeVar {
+				continue
+			}
+			for _, b := range x.Body.List {
+				if as, ok := b.(*ast.AssignStmt); ok && len(as.Rhs) == 1 && c04ExprString(as.Rhs[0]) == "true" {
+					return "or", c04ExprString(as.Lhs[0])
+				}
+			}
+			syncs := false
+			ast.Inspect(x.Body, func(n ast.Node) bool {
+				if c, ok := n.(*ast.CallExpr); ok {
+					if name, _ := c04CallName(c); name == "sync" {
+						syncs = true
+					}
+				}
+				return true
+			})
+			if syncs {
+				return "each", ""
+			}
+		case *ast.AssignStmt:
+			if len(x.Rhs) == 1 {
+				if be, ok := x.Rhs[0].(*ast.BinaryExpr); ok && be.Op == token.LOR {
+					l, r := c04ExprString(be.X), c04ExprString(be.Y)
+					lhs := c04ExprString(x.Lhs[0])
+					if (l == lhs && r == writeVar) || (r == lhs && l == writeVar) {
+						return "or", lhs
+					}
+				}
+			}
+		}
+	}
+	panic(fname + ": the fsync decision of db.write is not used in a known way")
+}
+
+// after the loop: `if flag && ... { selected.sync() }`
+func c04SyncAfterLoop(p *Pkg, fname, flag string) bool {
+	fn := p.Func("LogDB", fname)
+	seenLoop := false
+	for _, st := range fn.Body.List {
+		if _, ok := st.(*ast.RangeStmt); ok {
+			seenLoop = true
+			continue
+		}
+		is, ok := st.(*ast.IfStmt)
+		if !ok || !seenLoop {
+			continue
+		}
+		uses := false
+		ast.Inspect(is.Cond, func(n ast.Node) bool {
+			if id, ok := n.(*ast.Ident); ok && id.Name == flag {
+				uses = true
+			}
+			return true
+		})
+		if !uses {
+			continue
+		}
+		syncs := false
+		ast.Inspect(is, func(n ast.Node) bool {
+			if c, ok := n.(*ast.CallExpr); ok {
+				if name, _ := c04CallName(c); name == "sync" {
+					syncs = true
+				}
+			}
+			return true
+		})
+		return syncs
+	}
+	return false
+}
+
+// the deferred epilogue of tan's rebuildLog, in execution order
+func c04RebuildSteps(p *Pkg) []string {
+	fn := p.Func("db", "rebuildLog")
+	for _, st := range fn.Body.List {
+		d, ok := st.(*ast.DeferStmt)
+		if !ok {
+			continue
+		}
+		fl, ok := d.Call.Fun.(*ast.FuncLit)
+		if !ok {
+			continue
+		}
+		var steps []string
+		for _, b := range fl.Body.List {
+			for _, c := range c04StmtCalls(b) {
+				name, _ := c04CallName(c)
+				if name != "firstError" || len(c.Args) != 2 {
+					panic("rebuildLog: unexpected call in the deferred epilogue: " + name)
+				}
+				inner := c04ExprString(c.Args[1])
+				switch {
+				case inner == "f.Sync(...)":
+					steps = append(steps, "RsSyncFile")
+				case inner == "f.Close(...)":
+					steps = append(steps, "RsCloseFile")
+				case strings.HasSuffix(inner, ".Rename(...)"):
+					steps = append(steps, "RsRename")
+				case strings.HasSuffix(inner, "dataDir.Sync(...)"):
+					steps = append(steps, "RsSyncDir")
+				default:
+					panic("rebuildLog: unknown step " + inner)
+				}
+			}
+		}
+		return steps // the first defer (runs last): file sync / close / rename / dir sync
+	}
+	panic("rebuildLog: deferred epilogue not found")
+}
+
 func init() {
 	register(&Unit{Name: "C04", Imports: "From Coq Require Import Bool.", Facts: []Fact{
 		{Name: "stage vocabulary", Gen: func() string {
@@ -551,6 +706,23 @@ func init() {
 			d := c04TanSyncDisjuncts(loadPkg("internal/tan"))
 			return defBool("tan_sync_on_snapshot", d["snapshot"]) + defBool("tan_sync_on_entries", d["entries"]) +
 				defBool("tan_sync_on_state_change", d["state"])
+		}},
+		// internal/tan/logdb.go: how SaveRaftState carries db.write's fsync decision over a
+		// batch of updates (multiplexed logs: one fsync after the loop; regular: per update)
+		{Name: "tan SaveRaftState batch shapes", Gen: func() string {
+			p := loadPkg("internal/tan")
+			shape, flag := c04SaveLoop(p, "concurrentSaveState")
+			if shape == "each" {
+				panic("concurrentSaveState: per-update fsync (model expects one fsync after the loop)")
+			}
+			after := c04SyncAfterLoop(p, "concurrentSaveState", flag)
+			seq, _ := c04SaveLoop(p, "sequentialSaveState")
+			return defBool("tan_mux_sync_accumulates", shape == "or") + defBool("tan_mux_sync_after_batch", after) +
+				defBool("tan_seq_sync_each", seq == "each")
+		}},
+		{Name: "tan rebuildLog epilogue", Gen: func() string {
+			return "Inductive rstep := RsSyncFile | RsCloseFile | RsRename | RsSyncDir.\n" +
+				"Definition tan_rebuild_log_steps : list rstep := [" + strings.Join(c04RebuildSteps(loadPkg("internal/tan")), "; ") + "].\n"
 		}},
 		// internal/logdb/kv/pebble: every write batch is committed with Sync: true
 		{Name: "pebble write options", Gen: func() string {
